@@ -90,10 +90,10 @@ def h_accuracy(ctx, n, r, signs):
     else:
         c = acc if acc in (1.E+299, 0., -1) else None
     if c is not None and c == -1:
-        ctx.claim('sentinel_only_if_reference_zero', ctx.eq(n2, 0))
+        ctx.claim('sentinel_only_if_reference_zero', ctx.is_zero(n2))
     elif c is not None and c == 0:
         # (for an exactly zero reference the value is undefined; only finiteness is claimed)
-        ctx.claim('zero_only_if_negligible', ctx.any_([ctx.eq(n2, 0), ctx.le(d2 * big, n2)]))
+        ctx.claim('zero_only_if_negligible', ctx.any_([ctx.is_zero(n2), ctx.le(d2, n2 / big)]))
     elif c is not None and c > 1e298:
         ctx.claim('saturation_only_if_huge', ctx.ge(d2, n2 * big))
     else:
